@@ -25,7 +25,10 @@ with open(os.path.join(HERE, "seeded", "README.md"), "w") as f:
     f.write("# Seeded changes (written by independent sub-agents from the property text only)\n\n")
     f.write("Each directory holds `patch.diff` (apply with `git -C /repo apply`), `demo.py` (exits 0 on the unmodified tree, non-zero with the patch) and\n"
             "`meta.json` (what it needs to manifest, what was run to confirm it: demo on clean and patched tree, full suite on the patched tree, extensions rebuilt for C/C++ changes).\n"
-            "`detected by` is the current result of `tools/matrix.py` (all checks run against the patched tree); the thorough tier re-checks it on every run.\n\n")
+            "`detected by` is the current result of `tools/matrix.py` (all checks run against the patched tree); the thorough tier re-checks it on every run.\n"
+            "`note`: *missed when first run* = the property's check did not exit 1 on it when the change was first confirmed (silent or no verdict); the check was then strengthened.\n"
+            "`retired/` holds changes that stopped being breaking after a repair of /repo (C04-r3-2 after fix 3e2b666); `C15-r4-2/patch.diff` was re-applied by hand\n"
+            "onto 3e2b666 (original kept as `patch.pre-3e2b666.diff`).\n\n")
     f.write("| id | property | change | needs | detected by | note |\n|---|---|---|---|---|---|\n")
     for r in rows:
         f.write("| %s | %s | %s | %s | %s | %s |\n" % r)
